@@ -219,7 +219,7 @@ fn parse_args() -> Result<Args, String> {
             "--class" => a.class = Some(val("--class")?),
             "--no-known-lines" => a.no_known_lines = true,
             "--repo-state" => a.repo_state = val("--repo-state")?,
-            "--strict-reentrancy" => run::STRICT_REENTRANCY.store(true, std::sync::atomic::Ordering::Relaxed),
+            "--strict-reentrancy" | "--strict-advisory" => run::STRICT_ADVISORY.store(true, std::sync::atomic::Ordering::Relaxed),
             "--no-reenter" => {
                 stubs::NO_REENTER.store(true, std::sync::atomic::Ordering::Relaxed);
                 a.reenter_note = "re-entrant operations switched off for this run: one of them did not return (the code under test holds a lock across the sink or reader call)".into();
@@ -550,6 +550,7 @@ fn cmd_check(args: &Args) -> i32 {
             class_order.push(f.violation.class.clone());
         }
     }
+    let triage_started = Instant::now();
     let mut pending: Vec<(bool, ReplayFile, &'static str, u64)> = Vec::new();
     for class in class_order.iter().take(6) {
         seen_classes.push(class.clone());
@@ -565,6 +566,9 @@ fn cmd_check(args: &Args) -> i32 {
         let candidates: Vec<&Found> = real.iter().filter(|f| f.violation.class == *class).take(5).collect();
         let mut chosen: Option<(&Found, sim::Repro)> = None;
         for f in &candidates {
+            if chosen.is_some() && triage_started.elapsed().as_secs() > 120 {
+                break;
+            }
             let r = sim::reproduce(f, &ctx);
             let ok = r.reproducible;
             if chosen.is_none() || ok {
@@ -575,7 +579,7 @@ fn cmd_check(args: &Args) -> i32 {
             }
         }
         let (f, mut repro) = chosen.expect("class has at least one occurrence");
-        if !repro.reproducible {
+        if !repro.reproducible && triage_started.elapsed().as_secs() < 240 {
             // state shared between threads: only a fresh single-threaded process is a fresh start
             let quick_runs = runs.min(default_budget(prop, false).0);
             if let Some(r) = sim::reproduce_in_processes(prop, args.seed, quick_runs, enum_extra.min(24), class) {
@@ -646,19 +650,33 @@ fn cmd_check(args: &Args) -> i32 {
     }
     stats.add(C::violations, real.len() as u64);
 
-    // 4b. advisory observations from runs with re-entrant operations (never change the exit code)
+    // 4b. advisory observations (never change the exit code)
     let advisory_n = stats.get(C::advisory_reentrancy_observations);
-    for (class, detail) in &stats.advisory_samples {
+    let protocol_n = stats.get(C::advisory_protocol_observations);
+    let robustness_n = stats.get(C::advisory_robustness_observations);
+    for (class, detail, kind) in &stats.advisory_samples {
         let d: String = detail.chars().take(300).collect();
-        println!("REENTRANCY-NOTE: property={} {} - {}", prop.id(), class, d);
+        println!("{}-NOTE: property={} {} - {}", kind, prop.id(), class, d);
     }
     if !args.reenter_note.is_empty() {
         println!("REENTRANCY-NOTE: {}", args.reenter_note);
     }
     if advisory_n > 0 {
         println!(
-            "REENTRANCY-NOTE: {} observation(s) in runs where a sink or reader re-entered the crate; advisory only (C12/C13 quantify over values, not calling contexts) - see DESIGN.md 7.2",
+            "REENTRANCY-NOTE: {} observation(s) in runs where a sink or reader re-entered the crate; advisory only (C12/C13 quantify over values, not calling contexts) - see DESIGN.md 7.8",
             advisory_n
+        );
+    }
+    if protocol_n > 0 {
+        println!(
+            "PROTOCOL-NOTE: {} observation(s) of a printing/serialising call that reported the sink's failure but kept writing after it; advisory only (the caller was told the call failed) - see DESIGN.md 7.8",
+            protocol_n
+        );
+    }
+    if robustness_n > 0 {
+        println!(
+            "ROBUSTNESS-NOTE: {} panic(s) while reading torn or corrupted records; advisory only (what parsing does with arbitrary text is C05/C06's business) - see DESIGN.md 7.8",
+            robustness_n
         );
     }
 
@@ -779,7 +797,9 @@ fn cmd_check(args: &Args) -> i32 {
             "repo_state": args.repo_state,
             "advisory_reentrancy": {
                 "observations": advisory_n,
-                "samples": stats.advisory_samples.iter().map(|(c, d)| serde_json::json!({"class": c, "detail": d})).collect::<Vec<_>>(),
+                "samples": stats.advisory_samples.iter().map(|(c, d, k)| serde_json::json!({"kind": k, "class": c, "detail": d})).collect::<Vec<_>>(),
+                "protocol_observations": protocol_n,
+                "robustness_observations": robustness_n,
                 "note": "runs in which a stub re-entered the crate are advisory: nothing they observe changes the verdict",
                 "switched_off": args.reenter_note,
             },
